@@ -150,6 +150,14 @@ def install(kernel, simos):
     for nm in ("create_file", "open_file", "list", "file_exists", "delete_file",
                "rename_file", "file_length"):
         _set(RamStorage, nm, wrap_ram(nm))
+    orig_lock = RamStorage.__dict__["lock"]
+
+    def ram_lock(self, name):
+        lk = orig_lock(self, name)   # the real method; the lock it makes is a SimLock
+        if isinstance(lk, simthreads.SimLock) and not lk.name:
+            lk.name = "ram:" + name
+        return lk
+    _set(RamStorage, "lock", ram_lock)
     # fcntl is imported inside FcntlLock.acquire/release
     _originals.append((sys.modules, "fcntl", sys.modules.get("fcntl", _MISSING)))
     sys.modules["fcntl"] = simos.fcntl
